@@ -34,20 +34,23 @@ CLAIMS = {
             "online: predict, expectations, partial_fit per batch), TLC enumerates (n, test_size, ordered, batch_size) and "
             "checks each row is predicted once and learned only afterwards; the real Simulator.run() is compared with the "
             "script executed on deep copies of the original bandits (lists with several neighbourhood bandits of "
-            "different metrics, is_quick on/off)", "6.C15"),
+            "different metrics, is_quick on/off, fresh and already used bandits, with and without a context scaler - "
+            "Inv_C15_ScaleFirst)", "0.6, 6.C15"),
     "C16": ("Sim.tla defines the split laws, exact per-arm statistics and the default evaluator over rationals; the public "
             "attributes of real Simulator runs are validated by TraceSim.tla, which recomputes them exactly (partition, "
-            "last rows when ordered, train+test=total, credited rewards, counts sum to the test size, ordered analyses)",
-            "6.C16"),
+            "last rows when ordered, train+test=total, credited rewards, counts sum to the test size, ordered analyses, "
+            "per-batch analyses of online runs with each row's own neighbourhood statistics)", "0.6, 6.C16"),
     "C02": ("Lin.tla: per-arm A = lambda*I + X'X, Xty = X'y accumulated incrementally vs the ridge normal equations "
             "over the ghost history with exact rational arithmetic (Inv_C02_NormalEq/Solves/Unobserved); every edge "
             "replayed on LinGreedy/LinUCB/LinTS: A, Xty exactly, beta and expectations against exact x.beta and "
             "x'A^-1x (plus numpy.linalg.solve as a second oracle), d in {1,2}, m in {1,2,3,1025,1500}, scale=True "
-            "single fit through a rational identity", "6.C02"),
+            "single fit through a rational identity; beyond the exact model seeded histories with d <= 12 and real-valued "
+            "data against numpy.linalg.solve on the raw history", "0.6, 6.C02"),
     "C03": ("Nbhd.tla: exact distances on integer grids, RadiusSet (boundary included) and all tie-valid KSets; "
             "recorded executions of real Radius/KNearest bandits validated by TraceNbhd.tla, which also prints "
             "the set of documented results per query (learning policy trained from scratch on the selected rows) "
-            "that the real expectations must belong to", "6.C03"),
+            "that the real expectations must belong to; whole-number contexts given as integer arrays first and fractional "
+            "rows later (grid scaled by 1/2)", "0.6, 6.C03"),
     "C11": ("Nbhd.tla LSH tables with index offsets, exhaustive over all signature maps (Inv_C11_Tables/Union/"
             "Self); recorded executions validated by TraceNbhd.tla with signatures recomputed from "
             "table_to_plane: logged tables = spec tables after every fit/partial_fit, query result = policy on "
@@ -58,7 +61,8 @@ CLAIMS = {
     "C01": ("Mab.tla: impl-shaped accumulators/expectations vs Def* over the ghost history (Inv_C01_Acc/Total/Term/"
             "Neutral) for the six context-free policies, TLC-checked on all histories within bounds; every emitted "
             "edge replayed on a real MAB and its projected state and sampler output compared with the exact term; "
-            "deviation configs show non-vacuity", "6.C01"),
+            "deviation configs show non-vacuity; long recorded histories with wide values (up to 6 arms, batches of 50 rows, "
+            "rewards up to 2^16 in a dyadic unit, narrow reward dtypes) validated by TraceMab.tla", "0.6, 6.C01"),
     "C06": ("Mab.tla state graph confluence: all chunkings of a history into fit + partial_fit* reach one spec state "
             "(Inv_C01_* hold in it); the replay compares the real objects reaching that state along different "
             "chunkings bit for bit", "6.C06"),
@@ -79,14 +83,18 @@ CLAIMS = {
             "Prop_C13_Idempotent, Inv_C13_Cold, Inv_C13_Monotone (TLC) + replay of every warm_start edge: copied "
             "state, status, cold_arms", "6.C13"),
     "C14": ("Mab.tla with binarizers thr/flip/ge2 (flip is not idempotent), add_arm(arm, binarizer): Beta parameters "
-            "equal the statistics of the once-converted rewards (Inv_C01_Acc over converted ghost rewards) + replay",
-            "6.C14"),
+            "equal the statistics of the once-converted rewards (Inv_C01_Acc over converted ghost rewards) + replay; "
+            "Life.tla with the binarizer epoch (Inv_C14_Epoch): a bandit with a binarizer against a bandit fed the converted "
+            "rewards, edge by edge under every neighbourhood policy, also when the first binarizer arrives with add_arm; "
+            "caller arrays byte-compared; recorded neighbourhood executions validated by TraceNbhd.tla", "0.6, 6.C14"),
     "C17": ("Reject(kind) actions for every documented fault class at every position of every history, "
             "Prop_C17_RejectUnchanged (TLC) + replay: the call must raise the documented class and the deep snapshot "
             "including generator states must be unchanged; continuation edges start from the object that saw the "
             "rejected call", "6.C17"),
     "C19": ("replay: at every new spec state the real object is deep-copied and pickled (protocols 2-5); clones must "
-            "have identical deep snapshots, identical answers, and using them must not change the original", "6.C19"),
+            "have identical deep snapshots, identical answers, and using them must not change the original; a sample of "
+            "the pickles is restored by another interpreter (new process, other hash seed) that repeats the continuation "
+            "recorded on the original", "0.6, 6.C19"),
 }
 
 NOT_APPLICABLE = {}
